@@ -145,7 +145,8 @@ def recip(a):
     if a.kind == "complex":
         d = a.re * a.re + a.im * a.im
         return V("complex", a.re / d, -a.im / d)
-    return V("float", z3.RealVal(1) / (to_f64(a.re) if a.re.sort() == I else a.re))     # an integer divisor is converted first
+    d = to_f64(a.re) if a.re.sort() == I else a.re       # an integer divisor is converted first
+    return V("float", z3.RealVal(1) / d)
 
 
 def div(a, b):
